@@ -5,7 +5,7 @@ from mc import boot, core, cats as K, data
 
 PROP = 'C17'
 LNV = -10e+32
-WORDS = ['a', 'b', 'c']
+WORDS = ['a', 'b', 'A']      # 'A' differs from the dictionary word 'a' only by case: it is another word
 
 
 def model():
